@@ -25,9 +25,22 @@ func (x *Exec) localEnv(st *State, fr *frame, env *Env) {
 			}
 		}
 	}
+	pfx := fr.fn.String() + "."
+	for n, v := range st.names {
+		if strings.HasPrefix(n, pfx) {
+			env.vars[n[len(pfx):]] = v
+			delete(env.typs, n[len(pfx):])
+		}
+	}
 	for _, b := range fr.fn.Blocks {
 		for _, ins := range b.Instrs {
 			switch in := ins.(type) {
+			case *ssa.DebugRef:
+				if obj, ok := in.Object().(*types.Var); ok {
+					if _, have := env.vars[obj.Name()]; have {
+						env.typs[obj.Name()] = obj.Type()
+					}
+				}
 			case *ssa.Alloc:
 				if in.Comment == "" {
 					continue
@@ -62,6 +75,9 @@ func (x *Exec) topEnv(st *State, where string) *Env {
 		env.vars[n] = v
 		env.typs[n] = x.argT[n]
 	}
+	for n, v := range st.ghost {
+		env.vars[n] = v
+	}
 	env.cur, env.old = st, x.entry
 	return env
 }
@@ -90,6 +106,18 @@ func (x *Exec) loopInvariants(st *State, fr *frame, li *loopInfo, mode string, a
 	x.localEnv(st, fr, env)
 	if ls == nil {
 		return // no invariant given: loop is cut with `true`
+	}
+	if mode == "preserve" {
+		// ghost updates at the end of the iteration
+		for _, u := range ls.Updates {
+			old, ok := st.ghost[u.Var]
+			if !ok {
+				panic(fmt.Errorf("%s: loop update of undeclared ghost variable %s", fr.fn, u.Var))
+			}
+			nv := Sc{env.term(u.Sx), old.Sort}
+			st.ghost[u.Var] = nv
+			env.vars[u.Var] = nv
+		}
 	}
 	for _, c := range ls.Inv {
 		t := env.term(c.Sx)
@@ -122,6 +150,15 @@ func (x *Exec) havocLoop(st *State, fr *frame, li *loopInfo) {
 			break
 		}
 		st.regs[phi] = s.symVal(s.fresh(fr.fn.Name()+"."+phiName(phi)), phi.Type())
+	}
+	if fr.con != nil {
+		if ls := fr.con.Loops[li.ord]; ls != nil {
+			for _, u := range ls.Updates {
+				if old, ok := st.ghost[u.Var]; ok {
+					st.ghost[u.Var] = Sc{s.declare(s.fresh("ghostvar:"+u.Var), old.Sort), old.Sort}
+				}
+			}
+		}
 	}
 	eff := &effects{comps: map[string]bool{}, types: map[string]bool{}, allocs: map[*ssa.Alloc]bool{}, seen: map[*ssa.Function]bool{}}
 	for b := range li.body {
